@@ -145,6 +145,17 @@ func genC02Proto(t *rapid.T) ProtoCase {
 			}
 		}
 		sp.Script = append(sp.Script, Op{Op: "reply", P: genDoc(t, "rp")})
+		switch rapid.IntRange(0, 9).Draw(t, "stderr") {
+		case 0:
+			// the service's own error replies carry caller-supplied strings: they must be valid JSON objects too
+			hostile := string(genRunes(t, "hostile", 10))
+			sp.Script = []Op{{Op: rapid.SampledFrom([]string{"ifnotfound", "methodnotfound", "notimpl", "invalidparam"}).Draw(t, "stdop"), S: hostile}}
+		case 1:
+			hostile := strings.ReplaceAll(string(genRunes(t, "hostile", 10)), ".", "")
+			meth := rapid.SampledFrom([]string{"unknown." + hostile + ".M", hostile, "org.varlink.service." + hostile, "x.y" + hostile + ".M"}).Draw(t, "hostilemethod")
+			cc.Frames = append(cc.Frames, EncodeCall(meth, nil, false, false, false))
+			continue
+		}
 		b, _ := json.Marshal(sp)
 		cc.Frames = append(cc.Frames, EncodeCall("x.y.M", b, more, false, false))
 	}
@@ -313,6 +324,10 @@ func TestC02Concurrent(t *testing.T) {
 					}
 					sb.WriteString(`"}`)
 					sp := ScriptParams{Conn: conn, ID: call, Script: []Op{{Op: "reply", P: json.RawMessage(sb.String())}}}
+					if call == 0 && k%2 == 1 {
+						// a reply attempt whose parameters cannot be encoded (refused, nothing written) precedes the real one
+						sp.Script = append([]Op{{Op: "reply", Go: "nan"}}, sp.Script...)
+					}
 					b, _ := json.Marshal(sp)
 					cc.Frames = append(cc.Frames, EncodeCall("x.y.Big", b, false, false, false))
 				}
@@ -637,7 +652,7 @@ func execBigClose(c BigCloseCase, bound time.Duration) error {
 		dl := time.Now().Add(3 * bound)
 		for env.log.Len() < 2 {
 			// (the first call has been dispatched, so the connection was accepted; no handler is active any more, so it has ended)
-			if env.log.Len() >= 1 && env.svc.VerifActiveConnections() == 0 {
+			if env.log.Len() >= 1 && activeConns(env.svc) == 0 {
 				time.Sleep(20 * time.Millisecond)
 				if env.log.Len() < 2 {
 					return fmt.Errorf("%s: Send of a oneway call with %d MiB of parameters returned nil and the client closed its connection, but the service's connection ended without the call having been dispatched: the message was cut short", c.Transport, c.MiB)
